@@ -667,6 +667,23 @@ static Family addrs_family(const std::string &tier)
     c.name     = std::string("lookups-") + p.lookups + (p.hosts[0] ? "-hosts" : "") + (p.sortlist[0] ? "-sortlist" : "");
     f.cfgs.push_back(c);
   }
+  if (tier == "envhosts") {
+    // two hosts files: the configured one (ARES_OPT_HOSTS_FILE) and the one $CARES_HOSTS names, which requests with
+    // ARES_AI_ENVHOSTS must be answered from; the same name has different addresses in each, one name exists in one only
+    Cfg c       = cfg("lookups-f-hosts-and-envhosts", 1, 1, 0);
+    c.lookups   = "f";
+    c.hosts     = "10.7.7.7 hosted.example.com\n10.7.7.8 onlyconf.example.com\n";
+    c.env_hosts = "10.8.8.8 hosted.example.com\nfd00::88 hosted.example.com\n10.8.8.9 onlyenv.example.com\n";
+    c.domains   = {};
+    c.auto_io   = true;
+    c.whole_second_clock = true; // the files are older than the load, so a loaded copy counts as current
+    f.cfgs.clear();
+    f.cfgs.push_back(c);
+    Cfg d     = c;
+    d.name    = "lookups-fb-hosts-and-envhosts";
+    d.lookups = "fb";
+    f.cfgs.push_back(d);
+  }
   auto gai = [&](const char *n, int fam, int flags, const char *svc) {
     ReqSpec r  = rq(6, n, 1, 0, 0, fam);
     r.ai_flags = flags;
@@ -688,6 +705,10 @@ static Family addrs_family(const std::string &tier)
   gai("localhost", AF_UNSPEC, ARES_AI_NUMERICSERV, "8080");
   gai("localhost", AF_UNSPEC, 0, "");
   gai("x.localhost", AF_INET, 0, "");
+  gai("hosted.example.com", AF_UNSPEC, ARES_AI_ENVHOSTS, "");
+  gai("onlyenv.example.com", AF_INET, ARES_AI_ENVHOSTS, "");
+  gai("onlyconf.example.com", AF_INET, ARES_AI_ENVHOSTS, "");
+  gai("onlyconf.example.com", AF_INET, 0, "");
   f.reqs.push_back(rq(7, "www.example.com", 1, 0, 0, AF_INET));
   f.reqs.push_back(rq(7, "www.example.com", 1, 0, 0, AF_INET6));
   f.reqs.push_back(rq(7, "hosted.example.com", 1, 0, 0, AF_INET));
@@ -907,6 +928,23 @@ const Family *find_family(const std::string &name, const std::string &tier)
     f.max_dev     = 1;
     f.evmask |= EVBIT(EV_FAULT);
     f.max_depth = 5;
+  } else if (name == "addrs-envhosts") {
+    // which hosts file answers is a per-request choice (ARES_AI_ENVHOSTS): up to three lookups in a row on one channel,
+    // alternating between the configured file and the one the environment names
+    f      = addrs_family("envhosts");
+    f.name = "addrs-envhosts";
+    f.req_menu.clear();
+    for (int i = 0; i < (int)f.reqs.size(); i++) {
+      const std::string &n = f.reqs[(size_t)i].name;
+      if ((n == "hosted.example.com" && f.reqs[(size_t)i].service.empty()) || n == "onlyenv.example.com" || n == "onlyconf.example.com") f.req_menu.push_back(i);
+    }
+    f.req_repeat = true;
+    f.max_req    = 3;
+    f.replies    = { RK_DATA, RK_NXDOMAIN };
+    f.faults     = {};
+    f.max_dev    = 0;
+    f.evmask     = EVBIT(EV_REQ) | EVBIT(EV_REPLY);
+    f.max_depth  = tier == "quick" ? 4 : 5;
   } else if (name == "addrs-cache") {
     // address lookups answered from the query cache, more than once and at different ages
     f      = addrs_family(tier);
